@@ -18,6 +18,7 @@ pass-through wrapper), (c) the diagnostics finally shown.  Two oracles decide:
 from __future__ import annotations
 
 import ast
+import collections
 import copy
 import enum
 import itertools
@@ -1065,6 +1066,22 @@ def _boolop_shape(node) -> bool:
     return isinstance(node, list) and any(_boolop_shape(x) for x in node)
 
 
+def _correlated_shape(fn, b) -> bool:
+    """a parameter bound to a union argument is tested, and ANOTHER parameter is value-tested at least twice (the
+    first test narrows it for some members of the union only, the second depends on that narrowing)"""
+    tests = collections.Counter()
+    union_tested = set()
+    for node in _walk_conds(fn["body"]):
+        if node[0] not in ("isof", "cmp"):
+            continue
+        var = node[1]
+        tests[var] += 1
+        entry = b.get(var, (None, None, "?"))[2]
+        if entry in ATOMS and ATOMS[entry][2]:
+            union_tested.add(var)
+    return any(n >= 2 and any(u != v for u in union_tested) for v, n in tests.items())
+
+
 def _overlap_shape(fn, call, b) -> bool:
     """some is_of_type/compare on a union argument: a member matches, another does not match but 'overlaps' T"""
     from pyanalyze.value import is_overlapping
@@ -1123,6 +1140,11 @@ def mechanism_key(v) -> str:
         # the positive branch of a partial match is narrowed by intersection (constrain_value) instead of keeping the
         # matching members, so a member that did NOT match (float vs int, Any under exclude_any) re-enters it
         return "union-law|positive-branch-keeps-nonmatching-overlapping-member|extra"
+    if oracle == "union-law" and direction in ("missing", "different") and _correlated_shape(fn, b):
+        # variable maps are kept per variable: the narrowing of x made while y was one member of its union (inside an
+        # and/or, or in an earlier branch) is forgotten - or applied to all members - once y's members are re-united,
+        # so a later test of x is decided for the whole union at once
+        return "union-law|narrowing-of-one-parameter-correlated-with-the-member-of-another|missing-or-different"
     if oracle == "union-law" and direction in ("missing", "different") and _boolop_shape(fn["body"]):
         # a decisive later operand of and/or discards the members split off by an earlier partially matching operand
         return "union-law|boolop-discards-earlier-partial-match|missing-or-different"
